@@ -31,7 +31,7 @@ CFGCLS = 'xdoctest.doctest_example.DoctestConfig'
 
 
 def run(ctx):
-    for fn in (r1_one_collector, r2_one_option_table, r3_record_iff_raise, r4_skip_predicates, r5_disabled, r5b_disable_marker_anchored, r3b_raise_only_after_record, r6_exit_status):
+    for fn in (r1_one_collector, r2_one_option_table, r3_record_iff_raise, r4_skip_predicates, r5_disabled, r5b_disable_marker_anchored, r3b_raise_only_after_record, r6_exit_status, r2b_environment_defaults_are_front_end_independent, r7_pytest_skip_is_a_graceful_exit):
         ctx.rep.rule(fn, ctx)
 
 
@@ -373,6 +373,67 @@ def r5b_disable_marker_anchored(ctx):
     disable_marker_anchored(ctx, 'C15.R5b')
 
 
+def r2b_environment_defaults_are_front_end_independent(ctx):
+    """both front ends register the SAME table, the plugin with a prefix on the option strings.  A default taken from the environment
+    (XDOCTEST_OPTIONS, ...) must be keyed by the option name of the table entry, i.e. be computed from the alias BEFORE the prefix is applied --
+    computed from the prefixed alias the name is no longer environment-aware and pytest ignores a variable the native runner honours"""
+    rep = ctx.rep
+    UAC = CFGCLS + '._update_argparse_cli'
+    f = ctx.func(UAC)
+    g = ctx.cfg(f)
+    rd = ctx.rd(f)
+    envs = [n for n in g.nodes if n.kind == 'stmt' and not n.dup and any(isinstance(x, ast.Attribute) and x.attr == 'environ' for x in ast.walk(n.ast))
+            and any(isinstance(c, ast.Call) for c in ast.walk(n.ast))]
+    rep.floor('C15.R2b', 'environment lookups in the option table', len(envs), 1)
+    loops = [n for n in g.nodes if n.kind == 'for' and not n.dup]
+    for en in envs:
+        lf = [fr for fr in en.frames if fr.kind == 'loop']
+        need(lf, 'C15.R2b: the environment default is not computed per table entry')
+        tgt = lf[-1].stmt.target
+        entry_names = {x.id for x in ast.walk(tgt) if isinstance(x, ast.Name)}
+        # names the environment key is computed from, transitively
+        bad = []
+        seen = set()
+        work = [(en, x.id) for x in ast.walk(en.ast) if isinstance(x, ast.Name) and isinstance(x.ctx, ast.Load)]
+        while work:
+            node, nm = work.pop()
+            for d in rd.at(node, nm):
+                if id(d) in seen:
+                    continue
+                seen.add(id(d))
+                if nm in entry_names and d.kind not in ('iter',):
+                    if isinstance(d.value, ast.AST) and any(isinstance(y, ast.Name) and y.id == 'prefix' for y in ast.walk(d.value)):
+                        bad.append((nm, d))
+                if isinstance(d.value, ast.AST) and d.kind == 'assign':
+                    work += [(d.node, y.id) for y in ast.walk(d.value) if isinstance(y, ast.Name) and isinstance(y.ctx, ast.Load)]
+        rep.ob('C15.R2b', ctx.loc(f, en.ast), ctx.src(en.ast, 80), not bad,
+               'the environment key derives from the table entry as written' if not bad else
+               'the environment key is computed from `%s` after the front-end prefix was applied to it (%s): under pytest the name becomes e.g. xdoctest-options, which is not in the '
+               'environment-aware set, so XDOCTEST_OPTIONS changes the verdicts of the native runner only' % (bad[0][0], ctx.src(bad[0][1].node.ast, 60)), anchor=UAC)
+
+
+def r7_pytest_skip_is_a_graceful_exit(ctx):
+    """a doctest body that calls pytest.skip() raises _pytest.outcomes.Skipped, a BaseException.  The part loop treats it like ExitTestException
+    (stop quietly, nothing recorded): the handler that catches ExitTestException must name Skipped too, otherwise the native runner dies with a
+    traceback where pytest reports the item skipped"""
+    rr = run_roles(ctx)
+    rep = ctx.rep
+    g = rr.g
+    hs = []
+    for n in g.nodes:
+        if n.kind == 'handler' and not n.dup and isinstance(n.ast, ast.ExceptHandler) and n.ast.type is not None:
+            names = {x.attr if isinstance(x, ast.Attribute) else getattr(x, 'id', None) for x in ast.walk(n.ast.type)}
+            if 'ExitTestException' in names:
+                hs.append((n, names))
+    rep.floor('C15.R7', 'handlers for the graceful exit of a doctest', len(hs), 1)
+    for (n, names) in hs:
+        ok = 'Skipped' in names
+        rep.ob('C15.R7', ctx.loc(rr.f, n.ast), 'except %s' % ctx.src(n.ast.type, 80), ok,
+               'pytest.skip() inside a doctest ends it quietly under both front ends' if ok else
+               'pytest\'s Skipped is not caught with ExitTestException: it is a BaseException, escapes DocTest.run and aborts the native run (no verdict for this or any later doctest, exit 1 '
+               'with nothing failed) while pytest reports the doctest as skipped', anchor=RUN)
+
+
 # ---------------------------------------------------------------------------
 from ..selftest import fire, silent      # noqa: E402
 
@@ -381,6 +442,7 @@ RN = 'xdoctest/runner.py'
 DE = 'xdoctest/doctest_example.py'
 MA = 'xdoctest/__main__.py'
 VARIANTS = [
+    fire('pytest-skip-escapes-the-native-run', 'C15.R7', (DE, "                except (exceptions.ExitTestException,\n                        exceptions._pytest.outcomes.Skipped) as ex:\n", "                except exceptions.ExitTestException as ex:\n")),
     fire('skipped-reraised-in-raise-mode', 'C15.R3b', (DE, "                except (exceptions.ExitTestException,\n                        exceptions._pytest.outcomes.Skipped) as ex:\n", "                except (exceptions.ExitTestException,\n                        exceptions._pytest.outcomes.Skipped) as ex:\n                    if on_error == 'raise':\n                        raise\n")),
     fire('native-exit-status-is-the-count', 'C15.R6', ('xdoctest/__main__.py', "    if n_failed > 0:\n        return 1\n    else:\n        return 0\n", "    return n_failed\n")),
     fire('plugin-style-not-forwarded', 'C15.R1',
